@@ -130,4 +130,11 @@ def vfDefault (masters : List QGlyph) (dflt : Nat) : List (List TTPoint) :=
   | .ok ms => (ms.getD dflt []).map roundQ
   | .error _ => (masters.getD dflt []).map roundQ
 
+/-- master `k`'s glyf entry as the variable font reproduces it at master `k`'s location: the master with the joint mask applied,
+    rounded; when the masters are incompatible the glyph gets no variations and looks like the default master everywhere -/
+def vfMaster (masters : List QGlyph) (dflt k : Nat) : List (List TTPoint) :=
+  match dropJoint masters with
+  | .ok ms => (ms.getD k []).map roundQ
+  | .error _ => (masters.getD dflt []).map roundQ
+
 end Ufo2ft.C02
